@@ -10,3 +10,5 @@ def run(prog, rep):
                        'Equality with a brute-force traversal on all trees is not decided.')
     r_bfs.run(prog, rep)
     r_bfs.run_filters(prog, rep)
+    from ..rules import r_key as _rk4
+    _rk4.run_handles_only(prog, rep)
